@@ -2465,15 +2465,23 @@ func (d *Data) NewLabels(geom dvid.Geometry, img interface{}) (*Labels, error) {
 	var data []byte
 
 	if img == nil {
-		numVoxels := geom.NumVoxels()
-		if numVoxels <= 0 {
-			return nil, fmt.Errorf("illegal geometry requested: %s", geom)
+		// Check each dimension and not just the product, which is positive for two negative
+		// sizes and can overflow for large ones.
+		maxVoxels := server.MaxDataRequest / int64(bytesPerVoxel)
+		numVoxels := int64(1)
+		size := geom.Size()
+		for dim := uint8(0); dim < size.NumDims(); dim++ {
+			n := int64(size.Value(dim))
+			if n <= 0 {
+				return nil, fmt.Errorf("illegal geometry requested: %s", geom)
+			}
+			if numVoxels > maxVoxels/n {
+				return nil, fmt.Errorf("requested payload (%s voxels of %d bytes) exceeds this DVID server's set limit (%d)",
+					size, bytesPerVoxel, server.MaxDataRequest)
+			}
+			numVoxels *= n
 		}
 		requestSize := int64(bytesPerVoxel) * numVoxels
-		if requestSize > server.MaxDataRequest {
-			return nil, fmt.Errorf("requested payload (%d bytes) exceeds this DVID server's set limit (%d)",
-				requestSize, server.MaxDataRequest)
-		}
 		data = make([]byte, requestSize)
 	} else {
 		switch t := img.(type) {
